@@ -63,8 +63,11 @@ func c04CheckRange(w *mon.W, mask uint32, h int, from, to uint64, exp []uint64) 
 		w.Bucket("range/empty-result")
 	} else {
 		w.Distinct(gen.Hash64(uint64(mask), from, to))
-		if len(exp)&3 == 0 && !retainCheck(w, "AllPaths", "bmtree.AllPaths", func() uint64 { return gen.HashWords(got) }) {
-			return false
+		if len(exp)&3 == 0 {
+			scribbleW(got) // ours now
+			if !retainCheck(w, "AllPaths", "bmtree.AllPaths", func() uint64 { return gen.HashWords(got) }) {
+				return false
+			}
 		}
 	}
 	if from > to {
@@ -342,6 +345,7 @@ func c04Decode(w *mon.W, idx int) {
 	}
 	if len(exp) > 0 {
 		w.Distinct(gen.Hash64(uint64(mask), gen.HashWords(orig)))
+		scribbleW(got) // ours now
 		if !retainCheck(w, "Decode", "bmtree.Decode", func() uint64 { return gen.HashWords(got) }) {
 			return
 		}
